@@ -52,3 +52,10 @@ N("c14-n-worker-scope-ifexp", "C14", A, RS, "                if abandon_on_cance
   "                if not abandon_on_cancel and scope._parent_scope is not None:\n                    worker_scope = scope._parent_scope\n                else:\n                    worker_scope = scope")
 N("c14-n-report-flip", "C14", A, "WorkerThread._report_result", "            if exc is not None:\n                if isinstance(exc, StopIteration):\n                    new_exc = RuntimeError(\"coroutine raised StopIteration\")\n                    new_exc.__cause__ = exc\n                    exc = new_exc\n\n                future.set_exception(exc)\n            else:\n                future.set_result(result)",
   "            if exc is None:\n                future.set_result(result)\n            else:\n                if isinstance(exc, StopIteration):\n                    new_exc = RuntimeError(\"coroutine raised StopIteration\")\n                    new_exc.__cause__ = exc\n                    exc = new_exc\n\n                future.set_exception(exc)")
+
+# from seeded changes C14/c and C14/d (round 2)
+M("c14-from-thread-run-own-scope-only", "C14", A, "AsyncIOBackend.run_async_from_thread.task_wrapper",
+  "                scope._restart_cancellation()\n", "                if scope._cancel_called and scope._cancel_handle is None:\n                    scope._deliver_cancellation(scope)\n", ["R14-g"])
+M("c14-total-tokens-grants-by-difference", "C14", A, "CapacityLimiter.total_tokens@setter",
+  "        self._total_tokens = value\n\n        # Notify waiting tasks that they have acquired the limiter\n        while self._wait_queue and len(self._borrowers) < self._total_tokens:\n",
+  "        added = value - self._total_tokens\n        self._total_tokens = value\n\n        while self._wait_queue and added > 0:\n            added -= 1\n", ["R14-h"])
